@@ -166,6 +166,15 @@ func (c *cBool) goSrc() string {
 	return "(" + c.a.goSrc() + " || " + c.b.goSrc() + ")"
 }
 
+// caseSrc renders a clause condition of a tagless switch: a case list `a, b, …` (kind alt, right-nested, only at the
+// top of a clause condition) or a single condition.
+func (c *cBool) caseSrc() string {
+	if c.k == "alt" {
+		return c.a.goSrc() + ", " + c.b.caseSrc()
+	}
+	return c.goSrc()
+}
+
 func (c *cBool) sexp() string {
 	switch c.k {
 	case "cmp":
@@ -284,7 +293,7 @@ func (s *cStmt) render(b *strings.Builder, ind int) {
 					fmt.Fprintf(b, "%scase %d:\n", tab, cl.val)
 				}
 			default:
-				fmt.Fprintf(b, "%scase %s:\n", tab, cl.c.goSrc())
+				fmt.Fprintf(b, "%scase %s:\n", tab, cl.c.caseSrc())
 			}
 			cl.body.render(b, ind+1)
 			if cl.fall {
@@ -521,6 +530,19 @@ func (g *coreGen) stmt(depth int) *cStmt {
 				cl.val = v
 			} else {
 				cl.c = g.cond(1)
+				if g.r.Intn(3) == 0 {
+					// a case list of 2 or 3 conditions (cfg.go chains them since 3b98047)
+					coreFeat("core:tagless-case-list")
+					conds := []*cBool{cl.c, g.cond(1)}
+					if g.r.Intn(2) == 0 {
+						conds = append(conds, g.cond(0))
+					}
+					lst := conds[len(conds)-1]
+					for i := len(conds) - 2; i >= 0; i-- {
+						lst = &cBool{k: "alt", a: conds[i], b: lst}
+					}
+					cl.c = lst
+				}
 			}
 			if g.r.Intn(6) == 0 {
 				cl.body = &cStmt{k: "seq", a: &cStmt{k: "ite", c: g.cond(1), a: &cStmt{k: "brk"}, b: &cStmt{k: "skip"}}, b: cl.body}
